@@ -8,6 +8,7 @@ from . import machine as MM
 from . import platform as P
 from . import oracles as O
 from . import gen_machine as G
+from . import corpus as CORPUS
 import re
 
 
@@ -233,11 +234,11 @@ def machine_run(prop, streams=("random",)):
                     ctx.stats["distinct"].add(hash(tuple(a[1:])))
                 MM.distribution(ctx.stats, a)
                 for l in a:
-                    if l.startswith("FAIL:") or "CORRUPT" in l:
+                    if MM.fail_marker(prop, l):
                         ctx.failures.append({"what": l, "case": case, "cfg": cfg.cfg_line()})
                         break
                 rerun = (lambda c, _exe=exe: (MM.run_impl(_exe, c) or None))
-                v = O.run(prop, case, a, None)
+                v = O.run(prop, case, MM.clean(a), None)
                 if not v and twin_out is not None:
                     for (tag, tc, meta), t in zip(twin_plan[id(case)], twin_out.get(id(case), [])):
                         v = O.twin_verdict(prop, tag, meta, case, a, t)
@@ -622,9 +623,10 @@ def run_property(ctx):
             proof["axioms"].update(p2["axioms"])
             proof["broken"] = proof["broken"] + p2["broken"]
             proof["module"] = proof.get("module", spec.module) + " + " + em
-    # 3-4. harness + correspondence (+ property oracles on the implementation)
+    # 3-4. regression corpus first, then harness + correspondence (+ property oracles on the implementation)
     if ok:
         try:
+            CORPUS.run(ctx)
             spec.run(ctx)
         except Exception as e:  # a crash of the machinery is a broken check, never silence
             import traceback
